@@ -77,6 +77,9 @@ META = {
                     'precedence between a secrets file and a dotenv entry of the same name is not documented: either is accepted by the direct predicate (the model pins dotenv-over-secrets, the current behaviour)'],
 }
 
+# --- lead: algorithm-level source tie mentioned in the technique (kept separate so the builder's text stays intact)
+META['technique'] = META['technique'] + ' + translation of the lookup tiers of environ/lookups.py from the current source text into Gallina, proved equal to the hand-written model on every run (tie T for algorithms)'
+
 # ----------------------------------------------------------------------------------------------
 # independent reference (from the documentation)
 # ----------------------------------------------------------------------------------------------
